@@ -46,6 +46,10 @@ class _Obj:
     pass
 
 
+class _Code(int):
+    """an int subclass, as SDKs use for status codes"""
+
+
 def srepr(v) -> str:
     try:
         r = repr(v)
@@ -64,6 +68,12 @@ def concretise(v: dict, rng: random.Random, alt: int):
     if c == "false":
         return False
     if c == "int":
+        # "every integer status": plain ints, int subclasses and IntEnum members alike
+        if alt % 3 == 1:
+            return _Code(n)
+        if alt % 3 == 2:
+            import http
+            return http.HTTPStatus(n) if n in http.HTTPStatus._value2member_map_ else _Code(n)
         return n
     if c == "big":
         return [2 ** 64, 10 ** 400, -(2 ** 70)][alt % 3]
@@ -108,6 +118,8 @@ def build_sql(x: dict, rng: random.Random, alt: int) -> BaseException:
         args = ([f"[{code}] driver said no", f"[{code}]", f"x [{code}] [IM002] y"][alt % 3],)
     elif shape == "embedded":
         args = ([f"error {code} occurred", f"({code})", f"state={code};"][alt % 3],)
+    elif shape == "second":
+        args = (["could not complete the statement", "no", ""][alt % 3], f"[{code}] driver message")
     else:
         args = (40001, None, 3.5)
     e = type("DbBoom", (Exception,), {})(*args)
